@@ -37,19 +37,19 @@ func enumStrings(alpha []byte, maxLen int, shard, shards int, f func([]byte)) {
 
 // prefixes reaching every mode (the comment names the mode the machine is in after the prefix)
 var modePrefixes = []string{
-	"",         // value
+	"",               // value
 	"n", "nu", "nul", // null
 	"t", "tr", "tru", // true
 	"f", "fa", "fal", "fals", // false
-	"[1,",      // comma
+	"[1,",                                        // comma
 	"[1", "[1 ", "[\"a\"", "[[]", "[{}", "[true", // digit / after
-	"{",        // key1
-	"{\"a\":1,", // key
-	"{\"a\"",   // colon
-	"{\"a\":",  // value in object
+	"{",                     // key1
+	"{\"a\":1,",             // key
+	"{\"a\"",                // colon
+	"{\"a\":",               // value in object
 	"{\"a\":1", "{\"a\":1 ", // digit / after in object
-	"-",        // neg
-	"0", "-0",  // zero
+	"-",       // neg
+	"0", "-0", // zero
 	"1", "12", "-3", // digit
 	"1.", "0.", // dot
 	"1.5", "0.25", // frac
@@ -57,7 +57,7 @@ var modePrefixes = []string{
 	"1e+", "1e-", // expZero
 	"1e5", "1e+5", "1.5e-07", // exp
 	"\"", "\"a", "\"\\n", // string
-	"\"\\",     // esc
+	"\"\\",                                   // esc
 	"\"\\u", "\"\\u0", "\"\\u00", "\"\\u004", // u
 	"1 ", "[] ", "{} ", "null", "\"a\"", "\n", // space / value at top
 	"{\"a", "{\"a\\", "{\"a\\u00", // key string modes
